@@ -123,7 +123,8 @@ debug = 0
 def gen_workspace():
     """harness/Cargo.toml lists every h_* directory that has a Cargo.toml (generated: adding a package needs no shared edit)"""
     ms = sorted(d for d in os.listdir(HARNESS)
-                if d.startswith("h_") and os.path.exists(os.path.join(HARNESS, d, "Cargo.toml")))
+                if d.startswith("h_") and os.path.exists(os.path.join(HARNESS, d, "Cargo.toml"))
+                and (os.path.exists(os.path.join(HARNESS, d, "src", "main.rs")) or os.path.exists(os.path.join(HARNESS, d, "src", "lib.rs"))))
     txt = WORKSPACE_HEAD % ", ".join('"%s"' % m for m in ms)
     p = os.path.join(HARNESS, "Cargo.toml")
     try:
@@ -153,7 +154,7 @@ def cargo_build(pkg, features=None, rustflags=None, timeout=2400, target_sub=Non
         e.update(env)
     rc, out, err = sh(cmd, cwd=HARNESS, timeout=timeout, env=e)
     tries = 0
-    while rc != 0 and "failed to load manifest for workspace member" in err and tries < 4:
+    while rc != 0 and ("failed to load manifest for workspace member" in err or "failed to parse manifest" in err) and tries < 4:
         # another package of the workspace is mid-edit: regenerate the member list and retry
         time.sleep(3)
         gen_workspace()
@@ -307,6 +308,14 @@ def coq_eval(ctx, name, preamble, items, fn, shards=NCPU, timeout=900, min_per_s
     Returns list[int] aligned with items."""
     if not items:
         return []
+    # the modules the case files import must be compiled and up to date (Check modules are not in a Props closure)
+    mods = []
+    for m in re.finditer(r"From\s+LI\s+Require\s+(?:Import\s+|Export\s+)?(.*?)\.(?=\s|$)", strip_comments(preamble), re.S):
+        mods += ["theories/" + n.replace(".", "/") + ".vo" for n in m.group(1).split()]
+    if mods:
+        okb, logb = coq_build(mods)
+        if not okb:
+            raise Infra("cannot build the modules the case files import: " + logb[-1500:])
     k = max(1, min(shards, (len(items) + min_per_shard - 1) // min_per_shard))
     chunks = [items[i::k] for i in range(k)]
     paths = []
